@@ -23,6 +23,7 @@ func c17Canaries() []core.Canary {
 import (
 	"os"
 	"path/filepath"
+	"time"
 )
 
 // serves whatever path the caller names
@@ -41,7 +42,10 @@ func (this *FileLogger) zzCanaryCheckOk(id string, sec int) bool {
 	}
 	return true
 }
-`, Expect: []core.CanaryExpect{{Rule: "C17.read-path", Sub: "zzCanaryRead"}, {Rule: "C17.ratelimit", Sub: "zzCanaryCheckOk"}}}}
+
+// tells time by the system clock
+func (this *FileLogger) zzCanaryClock() int64 { return time.Now().UnixMilli() }
+`, Expect: []core.CanaryExpect{{Rule: "C17.read-path", Sub: "zzCanaryRead"}, {Rule: "C17.ratelimit", Sub: "zzCanaryCheckOk"}, {Rule: "C17.clock", Sub: "zzCanaryClock"}}}}
 }
 
 func logMethod(p *core.Program, name string) *core.FuncInfo {
@@ -112,8 +116,9 @@ func runC17(p *core.Program, r *core.Report) {
 	r.Rule("C17.levels", "each level method gates on its own level constant with '>' before formatting", 8)
 	r.Rule("C17.level-names", "logger.LogLevel maps error/warn/info/debug (any case) to their own level constants and anything else to the default WARN level", 7)
 	r.Rule("C17.ratelimit", "checkOk suppresses iff now < last + sec*1000 and records the time only when not suppressing; level methods consult it after the gate with cacheInterval", 8)
-	r.Rule("C17.clock", "the day the logger rotates and prunes by comes from the library clock each time it is asked: no value-returning function of util/dateutil remembers its own earlier answer in package-level state", 0)
+	r.Rule("C17.clock", "the day the logger rotates and prunes by comes from the library clock each time it is asked: no value-returning function of util/dateutil remembers its own earlier answer in package-level state; and every clock reading of logger/logfile (limiter, rotation, retention) goes through the library clock with the SetDelta offset, never time.Now or an offset-free reader", 5)
 	noSelfCacheRule(p, r, "C17.clock", []string{"util/dateutil"})
+	c17LibraryClock(p, r, "C17.clock")
 	r.Rule("C17.rotate", "process() reopens when date unit / rotation flag / handle changed; openFile is the only opener", 2)
 
 	c17ReadPath(p, r)
@@ -1869,5 +1874,106 @@ func c17CallOrder(p *core.Program, r *core.Report) {
 		if spawns > 0 {
 			fileProbs(r, "C17.single-sink", core.FuncName(fi.Obj)+" goroutines", p.Pos(fi.Decl.Pos()), probs, "goroutines are started by the constructor only")
 		}
+	}
+}
+
+// c17LibraryClock: the logger tells time by the library clock — the system clock plus the offset that
+// SetDelta/SetServerTime maintain — everywhere: rotation, file names, retention and the repeat limiter
+// then agree on what "now" is, and a test (or the server) that moves the clock moves all of them. No
+// function of logger/logfile calls time.Now, or a function of util/dateutil that reaches time.Now
+// without the offset being added on the way (today: SystemNow).
+func c17LibraryClock(p *core.Program, r *core.Report, rule string) {
+	du := p.Pkg("util/dateutil")
+	if du == nil {
+		r.Undec(rule, "util/dateutil", "-", "package not found")
+		return
+	}
+	// the offset: the package-level variable SetDelta assigns
+	var offset types.Object
+	if sd := p.Func("util/dateutil", "SetDelta"); sd != nil && sd.Decl.Body != nil {
+		ast.Inspect(sd.Decl.Body, func(n ast.Node) bool {
+			if as, ok := n.(*ast.AssignStmt); ok {
+				for _, l := range as.Lhs {
+					if id := rootOf(l); id != nil {
+						if v, ok := sd.Pkg.TypesInfo.ObjectOf(id).(*types.Var); ok && v.Pkg() != nil && v.Parent() == v.Pkg().Scope() {
+							offset = v
+						}
+					}
+				}
+			}
+			return true
+		})
+	}
+	if offset == nil {
+		r.Undec(rule, "util/dateutil.SetDelta", "-", "the clock offset variable was not found")
+		return
+	}
+	// per dateutil function: does it reach time.Now with / without the offset read on the way
+	type st struct{ reaches, offsetRead bool }
+	memo := map[*types.Func]*st{}
+	var visit func(fi *core.FuncInfo, depth int) *st
+	visit = func(fi *core.FuncInfo, depth int) *st {
+		if s, ok := memo[fi.Obj]; ok {
+			return s
+		}
+		s := &st{}
+		memo[fi.Obj] = s
+		if fi.Decl.Body == nil || depth > 6 {
+			return s
+		}
+		info := fi.Pkg.TypesInfo
+		ast.Inspect(fi.Decl.Body, func(n ast.Node) bool {
+			switch x := n.(type) {
+			case *ast.Ident:
+				if info.Uses[x] == offset {
+					s.offsetRead = true
+				}
+			case *ast.CallExpr:
+				if isCallTo(info, x, "time", "Now") {
+					s.reaches = true
+				}
+				if fn := calleeFunc(info, x); fn != nil && fn.Pkg() == fi.Obj.Pkg() {
+					if cf := p.FuncOf(fn); cf != nil && cf != fi {
+						cs := visit(cf, depth+1)
+						if cs.reaches {
+							s.reaches = true
+						}
+						if cs.reaches && cs.offsetRead {
+							s.offsetRead = true
+						}
+					}
+				}
+			}
+			return true
+		})
+		return s
+	}
+	for _, fi := range p.Funcs {
+		if fi.Decl.Body == nil || core.RelPkg(fi.Pkg.PkgPath) != "logger/logfile" {
+			continue
+		}
+		info := fi.Pkg.TypesInfo
+		ast.Inspect(fi.Decl.Body, func(n ast.Node) bool {
+			call, ok := n.(*ast.CallExpr)
+			if !ok {
+				return true
+			}
+			c := core.FuncName(fi.Obj)
+			if isCallTo(info, call, "time", "Now") {
+				r.Viol(rule, c+" reads time.Now", p.Pos(call.Pos()), "the logger reads the system clock directly: the clock offset (SetDelta/SetServerTime) does not reach this use, so it disagrees with the dates the logger rotates, names and prunes by")
+				return true
+			}
+			if fn := calleeFunc(info, call); fn != nil && fn.Pkg() != nil && fn.Pkg() == du.Types {
+				if cf := p.FuncOf(fn); cf != nil {
+					s := visit(cf, 0)
+					if s.reaches && !s.offsetRead {
+						r.Viol(rule, c+" reads "+fn.Name(), p.Pos(call.Pos()), "dateutil."+fn.Name()+" reads the clock without the offset SetDelta/SetServerTime maintain: this use (the repeat limiter, rotation, retention) does not follow the library clock the rest of the logger goes by")
+					} else if s.reaches {
+						r.OK(rule, c+" reads "+fn.Name(), p.Pos(call.Pos()), "library clock (offset applied)")
+					}
+				}
+			}
+			return true
+		})
 	}
 }
